@@ -88,12 +88,20 @@ def build_part(spec):
     return sp
 
 
+_LAST_PARTS = []
+
+
 def build_space(spec):
+    """Builds the space; the component wrappers of a compound are remembered in _LAST_PARTS (the
+    compound snapshots them at construction: mutating them afterwards must have no effect)."""
     k = spec["kind"]
+    del _LAST_PARTS[:]
     if k in ("RV", "SO2", "SO3"):
         return build_part(spec)
     if k == "Compound":
-        return B.CompoundStateSpace([build_part(p) for p in spec["parts"]], list(spec["weights"]))
+        parts = [build_part(p) for p in spec["parts"]]
+        _LAST_PARTS.extend(parts)
+        return B.CompoundStateSpace(parts, list(spec["weights"]))
     if k == "SE2":
         return B.SE2StateSpace(spec["weight"], [tuple(x) for x in spec["bounds"]])
     if k == "SE3":
@@ -244,6 +252,12 @@ def run_scenario(scn, validity=None, goal_fault=None, log=None, goal_ref=None):
         goal_ref[0] = goal
     start = dec(spec, prob["starts"][0])
     pd = getattr(B.ProblemDefinition, FROM[spec["kind"]])(space, start, goal)
+    if scn["params"].get("mutate_after_pd"):
+        # the problem definition snapshots the space (and a compound its components) at
+        # creation: what the user does to the wrapper objects afterwards must not reach the planner
+        for sp in [space] + list(_LAST_PARTS):
+            if hasattr(sp, "set_longest_valid_segment_fraction"):
+                sp.set_longest_valid_segment_fraction(0.77)
     p = scn["planner"]
     cfg = B.PlannerConfig(seed=p["seed"])
     kind = p["kind"]
